@@ -287,7 +287,7 @@ class AbsoluteSequence(AbstractSequence):
                     original_indices_to_remove.extend([j, i])
 
         # Remove messages
-        for index_shifter, index_to_remove in enumerate(original_indices_to_remove):
+        for index_shifter, index_to_remove in enumerate(sorted(original_indices_to_remove)):
             quantised_messages.pop(index_to_remove - index_shifter)
 
         self._messages = quantised_messages
